@@ -41,3 +41,8 @@ Definition ir_ushr (w a b : Z) : Z := a / 2 ^ (b mod w).
 Definition ir_sshr (w a b : Z) : Z := (sgn w a / 2 ^ (b mod w)) mod 2 ^ w.
 Definition ir_ineg (w a : Z) : Z := (- a) mod 2 ^ w.
 Definition ir_select (c a b : Z) : Z := if c =? 0 then b else a.
+
+(** a memory access made by a compiled instruction: kind 0 = load, 1 = store, 2 = atomic add; [a_bytes] wide at
+    address (a_base + a_off) mod 2^64 (the bounds check of C11 is made on exactly these three values first);
+    [a_val] = value stored / added; for loads [a_res loaded] = the value given to register [a_target] *)
+Record claccess := { a_kind : Z; a_bytes : Z; a_base : Z; a_off : Z; a_val : Z; a_res : Z -> Z; a_target : Z }.
